@@ -82,6 +82,7 @@ macro_rules! view_cells {
 view_cells! {
     q_views_slice_u8_u16_n2 u8, u16, 2, kani::any(), kani::any();
     q_views_slice_u8_u16_n0 u8, u16, 0, kani::any(), kani::any();
+    q_views_slice_u8_s5a16_n0 u8, S5a16, 0, kani::any(), S5a16(bytes());
     q_views_slice_unit_s5a16_n1 (), S5a16, 1, (), S5a16(bytes());
     r1_views_slice_s33a32_u8_n3 S33a32, u8, 3, S33a32(bytes()), kani::any();
     r2_views_slice_u64_u64_n1 u64, u64, 1, kani::any(), kani::any();
